@@ -288,9 +288,8 @@ theorem sfo_key_bounded (b : Bytes) (off : Nat) (k : Bytes) (h : cstrAt b off = 
   · cases h
 
 /-- **The value length a PARAM.SFO declares never drives memory use**: whatever the file declares and
-    however large it is, the value `sfoField` returns is shorter than `sfoMaxValueLen` (64 KiB) -/
-theorem sfo_value_bounded (b field v : Bytes) (h : sfoField b field = some v) : v.length < Gen.fs_sfoMaxValueLen := by
-  have hm : Gen.fs_sfoMaxValueLen = 65536 := rfl
+    however large it is, the value `sfoField` returns is at most `sfoMaxValueLen` (64 KiB) long -/
+theorem sfo_value_bounded (b field v : Bytes) (h : sfoField b field = some v) : v.length ≤ Gen.fs_sfoMaxValueLen := by
   unfold sfoField at h
   split at h
   · cases h
@@ -300,13 +299,21 @@ theorem sfo_value_bounded (b field v : Bytes) (h : sfoField b field = some v) : 
       · split at h
         · cases h
         · cases h
-        · rename_i dl dof _
+        · rename_i dl dof nt _
           split at h
           · cases h
           · rename_i hle
-            split at h
-            · simp only [Option.some.injEq] at h; subst h; decide
-            · simp only at h
+            cases nt with
+            | true =>
+              simp only [if_true] at h
+              split at h
+              · rename_i hv
+                simp only [Option.some.injEq] at h; subst h
+                have hv' := eq_of_beq hv
+                omega
+              · cases h
+            | false =>
+              simp only [Bool.false_eq_true, if_false] at h
               split at h
               · rename_i hv
                 simp only [Option.some.injEq] at h; subst h
